@@ -32,6 +32,16 @@ pub enum TEv {
 }
 
 fn talk_reqs() -> Vec<(NodeAddress, Vec<u8>, Vec<u8>)> {
+    let mut v = talk_reqs_base();
+    if std::env::var("VERIF_TIER_ARG").map(|t| t == "thorough").unwrap_or(false) {
+        // a fourth request: empty id, third peer, IPv6 source
+        let c = NodeAddress { socket_addr: "[2001:db8::4]:9000".parse().unwrap(), node_id: util::node_id(&util::key(43)) };
+        v.push((c, vec![], b"q3".to_vec()));
+    }
+    v
+}
+
+fn talk_reqs_base() -> Vec<(NodeAddress, Vec<u8>, Vec<u8>)> {
     let a = NodeAddress { socket_addr: util::v4(10, 0, 0, 2, 9000), node_id: util::node_id(&util::key(41)) };
     let b = NodeAddress { socket_addr: util::v4(10, 0, 0, 3, 9000), node_id: util::node_id(&util::key(42)) };
     // the third request reuses the id bytes of the first one, from another node address
@@ -205,7 +215,7 @@ async fn run_c20_async(known: bool, hist: &[TEv]) -> Outcome<TEv> {
 
 pub fn run_c20() {
     let mut rep = Report::new("C20", "model_checking");
-    let limits = Limits { max_budget: 0, max_depth: 12, max_states: 2_000_000, wall_s: mc::budget(rep.thorough(), 45.0, 1.0) };
+    let limits = Limits { max_budget: 0, max_depth: 16, max_states: 2_000_000, wall_s: mc::budget(rep.thorough(), 45.0, 1.0) };
     let mut found = vec![];
     let mut samples = vec![];
     let mut stats = mc::explore(&limits, |h: &[TEv]| rt::run(run_c20_async(false, h)), |v, _| found.push(v), |h, _| samples.push(format!("{:?}", h)));
@@ -544,16 +554,15 @@ pub fn run_c14() {
     lists.push(vec![256, 0, 256, 255, 254, 254, 7]);
     lists.push((0..=256u64).collect());
     lists.push((0..=256u64).rev().collect());
-    let fills_alpha: Vec<usize> = if thorough { vec![0, 1, 15, 16] } else { vec![0, 1, 16] };
+    let fills_alpha: Vec<usize> = vec![0, 1, 15, 16];
     let mut worlds = vec![];
-    for m in [1usize, 16, 48] {
+    let caps: Vec<usize> = if thorough { vec![1, 2, 3, 15, 16, 17, 32, 48] } else { vec![1, 3, 16, 17, 48] };
+    for m in caps {
         for a in &fills_alpha {
             for b in &fills_alpha {
                 for c in &fills_alpha {
                     for big in [false, true] {
-                        if !thorough && !big && (*a + *b + *c) % 2 == 1 {
-                            continue;
-                        }
+
                         worlds.push((m, [*a, *b, *c], big));
                     }
                 }
